@@ -170,7 +170,7 @@ def trace_summary(trace, limit_n=400):
 
 def classify(props):
     """Split CBMC property results into witnesses/bound/unwind/real."""
-    wit_reached, wit_missed, bound_fail, real_fail = [], [], [], []
+    wit_reached, wit_missed, bound_fail, real_fail, unknown = [], [], [], [], []
     n_ob = n_ok = 0
     for p in props:
         d = p.get("description", "")
@@ -183,12 +183,16 @@ def classify(props):
         if st == "SUCCESS":
             n_ok += 1
             continue
+        if st != "FAILURE":
+            # CBMC leaves properties UNKNOWN when other properties failed in the same run; never a verdict
+            unknown.append(p)
+            continue
         if ".no-body." in p.get("property", "") or d.startswith("BOUND:") or cls == "unwinding-assertion" or "unwinding assertion" in d or \
            "recursion unwinding" in d:
             bound_fail.append(p)
         else:
             real_fail.append(p)
-    return wit_reached, wit_missed, bound_fail, real_fail, n_ob, n_ok
+    return wit_reached, wit_missed, bound_fail, real_fail, n_ob, n_ok, unknown
 
 
 def build_goto(job, prop, jdir, extra_defs):
@@ -275,12 +279,24 @@ def native_replay(job, prop, jdir, rdir, vals, extra_defs):
     cmd = ["gcc", "-std=gnu99", "-g", "-O0", "-w", "-fsanitize=address,undefined", "-fno-sanitize-recover=all",
            "-DVP_NATIVE"] + BASE_DEFS + include_flags(prop) + job.get("defines", []) + extra_defs + \
         ["-Dharness=vp_harness_entry", h] + real + sup + [os.path.join(COMMON, "native_main.c"), "-o", exe, "-lm",
-                                                         "-lpthread", "-Wl,--unresolved-symbols=ignore-all"]
+                                                         "-lpthread"]
     with open(os.path.join(rdir, "replay_build.txt"), "w") as f:
         f.write(" ".join(cmd) + "\n")
     rc, _ = run(cmd, os.path.join(rdir, "replay_build.log"), 300, 16)
     if rc != 0:
-        return "skipped", "native build failed: " + open(os.path.join(rdir, "replay_build.log")).read()[-800:]
+        # functions referenced by real TUs but not reached by the harness: link aborting placeholders
+        log = open(os.path.join(rdir, "replay_build.log"), errors="replace").read()
+        syms = sorted(set(re.findall(r"undefined reference to `([A-Za-z_][A-Za-z0-9_]*)'", log)))
+        if not syms:
+            return "skipped", "native build failed: " + log[-800:]
+        uf = os.path.join(rdir, "unlinked.c")
+        with open(uf, "w") as f:
+            f.write("void vp_native_unlinked(const char *);\n")
+            for sy in syms:
+                f.write("void %s(void) { vp_native_unlinked(\"%s\"); }\n" % (sy, sy))
+        rc, _ = run(cmd[:-1] + [uf], os.path.join(rdir, "replay_build.log"), 300, 16)
+        if rc != 0:
+            return "skipped", "native build failed: " + open(os.path.join(rdir, "replay_build.log")).read()[-800:]
     env = dict(os.environ)
     env["VP_VALUES"] = vf
     env["ASAN_OPTIONS"] = "detect_leaks=%d:abort_on_error=0:exitcode=98" % (1 if job.get("leak") else 0)
@@ -295,11 +311,11 @@ def native_replay(job, prop, jdir, rdir, vals, extra_defs):
     txt = open(log, errors="replace").read()
     if rc == 0:
         return "not-reproduced", "native run completed cleanly"
-    if "pc 0x000000000000" in txt or "address 0x000000000000 (pc 0x000000000000" in txt:
-        return "skipped", "native run reached a function that is not linked natively (CBMC-only stub)"
+    if rc == 78 or rc == 127:
+        return "skipped", "native run reached a function that is not linked natively: " + txt[-300:]
     if rc == 77:
         return "diverged", "native run left the assumed region (address-dependent choice)"
-    return "confirmed", "native exit %d: %s" % (rc, txt[-1500:])
+    return "confirmed", "native exit %d: %s\n...\n%s" % (rc, txt[:1500], txt[-300:])
 
 
 def run_job(prop, job, tier, kf_defs, keep):
@@ -330,7 +346,7 @@ def run_job(prop, job, tier, kf_defs, keep):
         r["status"] = "noverdict"
         r["detail"] = "cbmc rc=%s (out of memory / front-end error?) %s %s" % (rc, msgs, open(out, errors="replace").read()[-600:])
         return r
-    wr, wm, bf, rf, nob, nok = classify(props)
+    wr, wm, bf, rf, nob, nok, unk = classify(props)
     r["obligations"], r["discharged"], r["witness_reached"] = nob, nok, wr
     # functions encoded (evidence)
     try:
@@ -377,6 +393,10 @@ def run_job(prop, job, tier, kf_defs, keep):
                                     "where": "%s:%s" % (sl.get("file"), sl.get("line")), "replay": rdir,
                                     "native": verdict})
         r["all_failed"] = ["%s [%s]" % (p["property"], p.get("description", "")) for p in rf[:40]]
+        return r
+    if unk:
+        r["status"] = "noverdict"
+        r["detail"] = "%d properties left UNKNOWN by CBMC without any FAILURE" % len(unk)
         return r
     # vacuity guard: the job's required witnesses (default: the one named "end", placed after the last
     # assertion of the main path) must be reported reachable
